@@ -7,3 +7,4 @@ INVARIANT NothingRaised
 INVARIANT RaisedAtFirstFailure
 INVARIANT NonFailingUntouched
 INVARIANT KeepOrDrop
+INVARIANT ExcludedUntouched
